@@ -1,7 +1,8 @@
 (* C01/C02 driver: (a) IN CHAIN lines — per thread-object incarnation the tag-ordered chain of
    state-word transitions observed on the real runtime — are run through the extracted acceptor;
    (b) IN MRUN lines ask for a seeded random program + schedule to be executed by the extracted
-   model itself and its boolean monitors to be evaluated (failing-input search on the model). *)
+   model itself and its boolean monitors to be evaluated (failing-input search on the model);
+   the oracle's third component oh picks the heap object create_thread_object rebinds. *)
 let z_of_int n = if n = 0 then Z0 else if n > 0 then Zpos (pos_of_int n) else Zneg (pos_of_int (-n))
 let site_of_int = function
   | 101 -> Some SiteBoost | 102 -> Some SiteAct | 103 -> Some SiteStore | 104 -> Some SiteSet | _ -> None
@@ -51,15 +52,17 @@ let () =
             if rnd 3 = 0 then Resume (nat_of_int (rnd ntgt)) else Spawn (gen_body 2 ntgt, rnd 2 = 0))) in
         let ext = fun t -> let i = int_of_nat t in if i < next then Some progs.(i) else None in
         let sched = List.init (int_of_string steps) (fun _ ->
-          (nat_of_int (rnd tn), { oi = nat_of_int (rnd 4); ob = (rnd 3 <> 0) })) in
+          (nat_of_int (rnd tn), { oi = nat_of_int (rnd 4); ob = (rnd 3 <> 0); oh = nat_of_int (rnd 3) })) in
         (* finish with a long round-robin tail so that most runs end quiescent *)
         let tail = List.concat (List.init 400 (fun k ->
-          List.init tn (fun a -> (nat_of_int a, { oi = nat_of_int 0; ob = (k mod 2 = 0) })))) in
+          List.init tn (fun a -> (nat_of_int a, { oi = nat_of_int 0; ob = (k mod 2 = 0); oh = nat_of_int (k mod 3) })))) in
         let c = sched_run (sched @ tail) ext in
         let tnn = nat_of_int tn in
-        Printf.printf "OUT MRUN %s ok=%d idle=%d lost=%d ntasks=%d\n" id
+        (* ntasks = thread objects allocated, ninc = tasks (incarnations) created: ninc > ntasks
+           iff some object was recycled in this run *)
+        Printf.printf "OUT MRUN %s ok=%d idle=%d lost=%d ntasks=%d ninc=%d\n" id
           (if mon_ok tnn c then 1 else 0) (if idle_b tnn c then 1 else 0)
-          (if lost_wakeup_b tnn c then 1 else 0) (int_of_nat (fst c).ntasks)
+          (if lost_wakeup_b tnn c then 1 else 0) (int_of_nat (fst c).ntasks) (int_of_nat (fst c).ninc)
       | _ -> ()
     done
   with End_of_file -> ()
